@@ -110,7 +110,7 @@ def main(tier, replay=None):
           ("Once", c07.CONFIGS["q"][:5], lambda c: dict(MaxNow=c.get("MaxNow", 0))),
           ("Note", [(n, dict(notelib.note_conf(notelib.CONF[n][2]), _c=notelib.CONF[n][2])) for n in ("n_chain", "n_sibling", "s_child", "x_hb")], lambda conf: notelib.consts_of(conf["_c"]))]
     for spec, cfgs, cf_ in l2:
-        res2 = l2lib.run_family(run, exe2, spec, "C03", cfgs, cf_, set(), {"O-hb"}, env={"VERIF_HB": "1"})
+        res2 = l2lib.run_family(run, exe2, spec, "C03", cfgs, cf_, set(), {"O-hb"}, env={"VERIF_HB": "1", "VERIF_HBDATA": "1"})
         for name, conf, out in res2:
             collect(out["res"])
     # ---- (1b') the waiter pool's spinlock orders the plain operations on the free list (Pool.tla replays)
